@@ -1,8 +1,208 @@
 import BddVerif.Drive.Util
-/-! Driver for C10 — stub, to be written. -/
-namespace B.Drive.C10
-open B B.Drive
+import BddVerif.Model.NormalForm
+/-!
+Driver for C10: replays each observed case through the model (`Model/NormalForm.lean`) and evaluates the
+property's own predicate on the implementation's output, by brute force over truth tables:
 
-def handle (key : String) (_ins _obs : List String) : Verdict := Verdict.bad ("key " ++ key)
+  mk_dnf  : truth table of the result = union of the clauses' truth tables, result canonical
+  mk_cnf  : truth table of the result = intersection of the disjunctive clauses' tables, result canonical
+  mk_conjunctive_clause / mk_disjunctive_clause : table of the single clause, result canonical
+  to_dnf / to_cnf / to_optimized_dnf : the extracted list denotes the operand (and every clause of the
+            optimised DNF implies it), and the rebuilt Bdd is the operand itself (structurally; for a valid but
+            non-canonical operand: same function and canonical)
+  a panic on clauses that only mention variables `< num_vars` is a failure.
+Clauses that mention a variable `≥ num_vars` are outside the property: only model agreement is checked.
+-/
+namespace B.Drive.C10
+open B B.Drive B.NF
+
+def maxTT : Nat := 13
+
+/-- clause text: the raw vector over `0`, `1`, `-`; `~` = empty vector -/
+def parseClause (s : String) : PVal :=
+  if s == "~" then [] else s.toList.map fun c => if c == '1' then some true else if c == '0' then some false else none
+
+def parseClauses (s : String) : List PVal :=
+  if s == "." then [] else (s.splitOn "/").map parseClause
+
+/-- observed clause (`fmt_partial`): `01-` over the `n` variables, then `;idx=val` for the others -/
+def parseObsClause (s : String) : PVal :=
+  match s.splitOn ";" with
+  | [] => []
+  | h :: extras =>
+    extras.foldl (fun pv e =>
+      match e.splitOn "=" with
+      | [i, b] => match i.toNat? with
+        | some i => pv.set i (b == "1")
+        | none => pv
+      | _ => pv) (parseClause h)
+
+def parseObsClauses (s : String) : Option (List PVal) :=
+  if s == "panic" then none else if s == "." then some [] else some ((s.splitOn "/").map parseObsClause)
+
+/-- the harness's `fmt_partial p n` -/
+def showClause (n : Nat) (c : PVal) : String :=
+  let base := String.ofList ((List.range n).map fun i =>
+    match c.get i with | some true => '1' | some false => '0' | none => '-')
+  let base := if base.isEmpty then "~" else base
+  let extras := (c.toValues.filter fun l => l.1 ≥ n).map fun l => s!";{l.1}={if l.2 then 1 else 0}"
+  base ++ String.join extras
+
+def showClauses (n : Nat) (cs : List PVal) : String :=
+  if cs.isEmpty then "." else "/".intercalate (cs.map (showClause n))
+
+def showOutArr : Outcome Arr → String
+  | .ok A => showArr A
+  | .err _ => "err"
+  | .panic _ => "panic"
+
+def showOutClauses (n : Nat) : Outcome (List PVal) → String
+  | .ok cs => showClauses n cs
+  | .err _ => "err"
+  | .panic _ => "panic"
+
+/-- every fixed position of the clause is a variable `< n` -/
+def inRange (n : Nat) (c : PVal) : Bool := c.toValues.all fun l => l.1 < n
+
+/-- the conjunctive reading of a clause at valuation number `i` over `n` variables -/
+def conjAt (n : Nat) (c : PVal) (i : Nat) : Bool :=
+  (List.range n).all fun k => match c.get k with | some b => valOfIndex n i k == b | none => true
+
+/-- the disjunctive reading -/
+def disjAt (n : Nat) (c : PVal) (i : Nat) : Bool :=
+  (List.range n).any fun k => match c.get k with | some b => valOfIndex n i k == b | none => false
+
+def dnfAt (n : Nat) (cs : List PVal) (i : Nat) : Bool := cs.any fun c => conjAt n c i
+def cnfAt (n : Nat) (cs : List PVal) (i : Nat) : Bool := cs.all fun c => disjAt n c i
+
+def firstFail (xs : List (Option String)) : Option String := xs.findSome? id
+
+/-- `A` is a canonical Bdd over `n` variables whose table is `f` -/
+def checkBuilt (n : Nat) (A : Arr) (f : Nat → Bool) (what : String) : Option String :=
+  if numVars A != n then some (what ++ ":num_vars") else
+  if !isCanon A then some (what ++ ":not-canonical") else
+  if n > maxTT then none else
+  let t := ttOf A n
+  if (List.range (2 ^ n)).all fun i => t[i]! == f i then none else some (what ++ ":function")
+
+/-- the rebuilt Bdd against the operand -/
+def checkRebuilt (n : Nat) (b : Arr) (canonB : Bool) (r : String) (what : String) : Option String :=
+  match parseArr? r with
+  | none => some (what ++ ":" ++ r)
+  | some R =>
+    if canonB then (if R == b then none else some (what ++ ":differs-from-operand"))
+    else
+      let tb := ttOf b n
+      checkBuilt n R (fun i => tb[i]!) what
+
+def sizeTag (k : Nat) : String := if k = 0 then "len0" else if k = 1 then "len1" else if k ≤ 3 then "len2-3" else "len4+"
+
+def hasDup (cs : List PVal) : Bool :=
+  match cs with
+  | [] => false
+  | c :: t => t.any (clauseEq c ·) || hasDup t
+
+def handleMk (key : String) (n : Nat) (cs : List PVal) (model : String) (res : String) (dnf : Bool) : Verdict :=
+  let ok := cs.all (inRange n)
+  let fail : Option String :=
+    if !ok then none else
+    match parseArr? res with
+    | none => some ("outcome-on-valid-clauses:" ++ res)
+    | some A => checkBuilt n A (if dnf then dnfAt n cs else cnfAt n cs) key
+  { agree := model == res, model, fail,
+    nontrivial := ok && cs.length ≥ 2 && (parseArr? res).any (·.size > 2),
+    tags := [key, sizeTag cs.length, s!"n{n}"] ++ (if ok then [] else ["oob"]) ++
+      (if hasDup cs then ["dup"] else []) ++ (if res == "panic" then ["panic"] else []) }
+
+def handle (key : String) (ins obs : List String) : Verdict :=
+  match key, ins, obs with
+  | "C10.dnf", [n, cl], [res] =>
+    match n.toNat? with
+    | some n =>
+      let cs := parseClauses cl
+      handleMk key n cs (showOutArr (mkDnf n cs)) res true
+    | none => Verdict.bad "args"
+  | "C10.cnf", [n, cl], [res] =>
+    match n.toNat? with
+    | some n =>
+      let cs := parseClauses cl
+      handleMk key n cs (showOutArr (mkCnf n cs)) res false
+    | none => Verdict.bad "args"
+  | "C10.conj", [n, cl], [res] =>
+    match n.toNat? with
+    | some n =>
+      let c := parseClause cl
+      let model := showOutArr (mkConjClause n c)
+      let ok := inRange n c
+      let fail := if !ok then (if res == "panic" then none else some "no-panic-on-foreign-variable") else
+        match parseArr? res with
+        | none => some ("outcome-on-valid-clause:" ++ res)
+        | some A => checkBuilt n A (conjAt n c) key
+      { agree := model == res, model, fail, nontrivial := ok && c.toValues.length ≥ 1,
+        tags := [key, s!"n{n}"] ++ (if ok then [] else ["oob"]) }
+    | none => Verdict.bad "args"
+  | "C10.disj", [n, cl], [res] =>
+    match n.toNat? with
+    | some n =>
+      let c := parseClause cl
+      let model := showOutArr (mkDisjClause n c)
+      let ok := inRange n c
+      let fail := if !ok then (if res == "panic" then none else some "no-panic-on-foreign-variable") else
+        match parseArr? res with
+        | none => some ("outcome-on-valid-clause:" ++ res)
+        | some A => checkBuilt n A (disjAt n c) key
+      { agree := model == res, model, fail, nontrivial := ok && c.toValues.length ≥ 1,
+        tags := [key, s!"n{n}"] ++ (if ok then [] else ["oob"]) }
+    | none => Verdict.bad "args"
+  | "C10.ext", [b], [dnf, cnf, rd, rc] =>
+    match parseArr? b with
+    | some A =>
+      let n := numVars A
+      let md := toDnf A
+      let mc := toCnf A
+      let mrd : Outcome Arr := match md with | .ok cs => mkDnf n cs | .err m => .err m | .panic m => .panic m
+      let mrc : Outcome Arr := match mc with | .ok cs => mkCnf n cs | .err m => .err m | .panic m => .panic m
+      let model := " ".intercalate [showOutClauses n md, showOutClauses n mc, showOutArr mrd, showOutArr mrc]
+      let canonB := isCanon A
+      let tb := ttOf A n
+      let fail := firstFail [
+        match parseObsClauses dnf with
+        | none => some "to_dnf:panic"
+        | some cs =>
+          if !(cs.all (inRange n)) then some "to_dnf:foreign-variable" else
+          if (List.range (2 ^ n)).all fun i => dnfAt n cs i == tb[i]! then none else some "to_dnf:function",
+        match parseObsClauses cnf with
+        | none => some "to_cnf:panic"
+        | some cs =>
+          if !(cs.all (inRange n)) then some "to_cnf:foreign-variable" else
+          if (List.range (2 ^ n)).all fun i => cnfAt n cs i == tb[i]! then none else some "to_cnf:function",
+        checkRebuilt n A canonB rd "mk_dnf(to_dnf)",
+        checkRebuilt n A canonB rc "mk_cnf(to_cnf)"]
+      { agree := model == " ".intercalate [dnf, cnf, rd, rc], model, fail, nontrivial := A.size > 2,
+        tags := [key, s!"n{n}", if canonB then "canonical" else "noncanonical",
+          sizeTag ((parseObsClauses dnf).getD []).length] }
+    | none => Verdict.bad "args"
+  | "C10.opt", [b], [dnf, rd] =>
+    match parseArr? b with
+    | some A =>
+      let n := numVars A
+      let md := toOptimizedDnf A
+      let mrd : Outcome Arr := match md with | .ok cs => mkDnf n cs | .err m => .err m | .panic m => .panic m
+      let model := " ".intercalate [showOutClauses n md, showOutArr mrd]
+      let canonB := isCanon A
+      let tb := ttOf A n
+      let fail := firstFail [
+        match parseObsClauses dnf with
+        | none => some "to_optimized_dnf:panic"
+        | some cs =>
+          if !(cs.all (inRange n)) then some "to_optimized_dnf:foreign-variable" else
+          if !(cs.all fun c => (List.range (2 ^ n)).all fun i => !conjAt n c i || tb[i]!) then
+            some "to_optimized_dnf:clause-not-an-implicant" else
+          if (List.range (2 ^ n)).all fun i => dnfAt n cs i == tb[i]! then none else some "to_optimized_dnf:function",
+        checkRebuilt n A canonB rd "mk_dnf(to_optimized_dnf)"]
+      { agree := model == " ".intercalate [dnf, rd], model, fail, nontrivial := A.size > 2,
+        tags := [key, s!"n{n}", sizeTag ((parseObsClauses dnf).getD []).length] }
+    | none => Verdict.bad "args"
+  | _, _, _ => Verdict.bad ("key " ++ key)
 
 end B.Drive.C10
